@@ -293,6 +293,8 @@ func runC16As(c *Ctx, P string) {
 
 		// --- snapshot
 		fl := newFlow(p)
+		flDeep := newFlow(p)
+		flDeep.ThroughInPkg = true // second attempt: copies made by a small in-package (possibly generic) clone helper
 		for _, b := range upd.Blocks {
 			for _, in := range b.Instrs {
 				ci, ok := in.(ssa.CallInstruction)
@@ -326,6 +328,18 @@ func runC16As(c *Ctx, P string) {
 							}
 							if !fresh {
 								good = false
+							}
+						}
+					}
+					if !good && len(stores) > 0 {
+						// the copy may be made by an in-package helper (clonePtr[T]): look through it
+						good = true
+						for _, v := range stores {
+							for _, o := range flDeep.Origins(v) {
+								fresh := o.Kind == "make" || o.Kind == "alloc" || o.Kind == "zero" || o.Kind == "const" || (o.Kind == "call" && strings.Contains(o.Desc, "Clone")) || (o.Kind == "outparam" && strings.Contains(o.Desc, "builtin:copy"))
+								if !fresh {
+									good = false
+								}
 							}
 						}
 					}
